@@ -10,7 +10,7 @@ ALL = [f"C{i:02d}" for i in range(1, 20)]
 # id -> (category, technique, level text, level note, design ref)
 CHECKS = {
     "C01": ("exploration", "complete product lattices + select-signature boundary refinement (bisection of every region change to adjacent floats) + regular rate lattices, wide-precision filter with exact multiprecision decision",
-            "For 14 algorithms x 2 precisions the package-expanded graph is evaluated on the full product of a boundary lattice (all binades, every graph constant +-2 ULP, specials, infinities), on both sides (+-2 ULP) of every region boundary found by bisecting branch-signature changes along lattice rows and columns, and on two regular rate lattices; every point not within 1 ULP of an independent wider-precision evaluation is decided by mpmath at two precisions (16-ULP bound, spurious NaN/inf/sign, Annex-G limits where two sources agree, 99.9 % target rate). A sub-lattice is replayed through the emitted NumPy code each run (bit identity).",
+            "For 14 algorithms x 2 precisions the package-expanded graph is evaluated on the full product of a boundary lattice (all binades, every graph constant +-2 ULP, specials, infinities), on both sides (+-2 ULP) of every region boundary found by bisecting branch-signature changes along lattice rows and columns, on two regular rate lattices, and on a unit-modulus lattice (|z| and |1+z| within 2 ULP of 1); every point not within 1 ULP of an independent wider-precision evaluation is decided by mpmath at two precisions (16-ULP bound, spurious NaN/inf/sign, Annex-G limits where two sources agree, 99.9 % target rate). A sub-lattice is replayed through the emitted NumPy code each run (bit identity).",
             "Trusts NumPy arithmetic, the wide-precision NumPy functions only as an accept-filter, mpmath under two-precision agreement. Inputs off the enumerated lattices are not covered.", "DESIGN.md §2 C01"),
     "C02": ("exploration", "exhaustive enumeration of all 2^32 float32 inputs (thorough) / a complete coset + threshold neighbourhoods (quick); float64 and hypot product lattices; exact multiprecision decision of every reported count",
             "Every float32 input of each unary real algorithm is evaluated (thorough tier) through an interpreter that is bit-identical to the emitted NumPy code; a float64 filter selects the points whose error could reach 3 ULP or that sit near a rounding boundary and those are decided exactly with mpmath at two precisions. NaN-set, limits at inf/0, the 4/5-ULP bound and the 1e-5 rate are judged on the complete enumeration.",
@@ -19,34 +19,34 @@ CHECKS = {
             "Bit-pattern comparison of f(z) with f(conj z), f(-z), f(iz) and of derived functions with their parents on the full product S x S of a negation-closed component lattice (all binades, thresholds +-2 ULP, special values, infinities) for 14 functions x 2 precisions, and on all float32 inputs (thorough) for the real functions. No tolerance: a single differing bit outside the literally excluded branch-cut/zero cases decides.",
             "Trusts the interpreter's bit-identity with the emitted NumPy code (measured by C01's conformance replay). Inputs off the lattice are not covered.", "DESIGN.md §2 C03"),
     "C04": ("exploration", "bounded exhaustive program enumeration (all expression trees up to a size bound over the supported kinds and a leaf alphabet) with differential evaluation of original vs rewritten DAG on a complete assignment grid, float and exact rational",
-            "Every well-typed tree of the listed sizes (all kinds to size 2, boolean/select algebra to size 3, sign-inference comparison pairs, constant-only trees, casts/atan2/copysign/hypot nestings) is built in a fresh Context, rewritten, and both DAGs are evaluated by an independent interpreter on the full 18x18 grid of special and generic values (compared where the original raises no NaN/overflow/underflow/divide-by-zero event) and exactly on a 9x9 rational grid; raises and non-termination are violations; shipped algorithms before/after fa.rewrite on lattices. Mismatches are reduced to their minimal failing sub-tree.",
+            "Every well-typed tree of the listed sizes (all kinds to size 2, boolean/select algebra to size 3, sign-inference comparison pairs, constant-only trees, casts/atan2/copysign/hypot nestings, every operation over two sign-definite operands compared with 0 and sign-definite values, every and/or/xor/not tree of depth <= 2 over shared atoms with selects on them, folds of constants inexact in float32, and graphs over a complex-typed symbol evaluated by an own complex interpreter) is built in a fresh Context, rewritten, and both DAGs are evaluated by an independent interpreter on the full 18x18 grid of special and generic values (compared where the original raises no NaN/overflow/underflow/divide-by-zero event) and exactly on a 9x9 rational grid; raises and non-termination are violations; shipped algorithms before/after fa.rewrite on lattices. Mismatches are reduced to their minimal failing sub-tree.",
             "Trusts mc.interp = NumPy semantics. Programs beyond the size bounds are not covered.", "DESIGN.md §2 C04"),
-    "C05": ("exploration", "bounded program enumeration (shipped requests + complete kind-pair / constant / sharing lattice) with differential execution of the emitted Python, NumPy and C++ code against an independent evaluation of the graph, plus parse-back single-assignment check",
-            "Every shipped python/numpy/cpp request and every lattice program (each declared kind on symbols, outer x inner x operand position incl. select/comparison nodes, 14 constant classes in four positions, diamonds), with and without fa.rewrite, float32/float64, debug 0/1: the emitted source must load (compile/exec; g++ per batch, culprits isolated), be single-assignment (ast / C parser), and return bit-identical values on a 16x16 special+generic input grid (Python: eager math interpreter; NumPy: mc.interp; C++: mc.interp in the same type for graphs made of correctly rounded primitives).",
-            "C++ execution is compared only for graphs built from +,-,*,/,sqrt,abs,min,max,comparisons,select (libm transcendental functions differ between glibc and NumPy); complex C++ functions are only compiled.", "DESIGN.md §2 C05"),
+    "C05": ("exploration", "bounded program enumeration (shipped requests + complete kind-pair / constant / sharing lattice + histories of trace/emit requests on one Context) with differential execution of the emitted Python, NumPy and C++ code against an independent evaluation of the graph, plus parse-back single-assignment check",
+            "Every shipped python/numpy/cpp request and every lattice program (each declared kind on symbols, outer x inner x operand position incl. select/comparison nodes, 14 constant classes in four positions, diamonds), with and without fa.rewrite, float32/float64, debug 0/1: the emitted source must load (compile/exec; g++ per batch, culprits isolated), be single-assignment (ast / C parser), and return bit-identical values on a 16x16 special+generic input grid (Python: eager math interpreter; NumPy: mc.interp; C++: the interpreter with every library primitive taken from the same libm/libstdc++ through an extern-C shim in the same shared object). Also: named-reference collisions inside ctx.call scopes, twin constants (same value, different like type / sign of zero), mixed-dtype and list-argument signatures, precision changes, and all sequences of 2 (3) trace+emit requests on one Context.",
+            "Rows in which a `sign` node sees a zero are not judged in C++ (the property does not fix the sign of sign(+-0)); complex-argument C++ functions are only compiled; bitwise kinds (integer-typed) are not in the lattice.", "DESIGN.md §2 C05"),
     "C06": ("exploration", "bounded program enumeration with parse-back of the emitted StableHLO / XLA-client text by independent parsers and node-by-node comparison with the graph under an independent operator table",
-            "All shipped stablehlo/xla_client requests (alt constant context for xla_client) and the declared kind lattice under real/complex/mixed symbols, with and without fa.rewrite: the text is parsed (S-expression reader; C tokenizer + Pratt parser), bindings are resolved in textual order (bound exactly once, before use), and the operator tree is compared with the graph: operator per kind, operand order, comparison direction, named-constant operators, ConstantLike/ScalarLike attached to a bound operand of the right element class, compile-time constant expressions of the alt context.",
+            "All shipped stablehlo/xla_client requests (alt constant context for xla_client) and the kind lattice (every kind either reference table or the target's own table declares; numeric +-inf/-0.0 and named constants; twin constants) under real/complex/mixed symbols, with and without fa.rewrite: the text is parsed (S-expression reader; C tokenizer + Pratt parser), bindings are resolved in textual order (bound exactly once, before use), and the operator tree is compared with the graph: operator per kind, operand order, comparison direction, named-constant operators, ConstantLike/ScalarLike attached to a bound operand of the right element class, compile-time constant expressions of the alt context.",
             "The kind->operator tables in mc/checks/c06.py are the authority for which operator implements a kind. Text only, nothing is executed.", "DESIGN.md §2 C06"),
     "C07": ("model_checking", "explicit-state BFS over construction histories of one Context, each state rebuilt on the real code, `is` vs structural-term equality in every state",
-            "Level-synchronous breadth-first search over sequences of symbol/constant/operation constructions (two families enumerated completely up to 4-5 distinct terms), canonical states = set of structural terms + first-registered member of every ==-equal constant class (the only order-sensitive behaviour), so both orders of every colliding pair are visited; after every event the new node is compared with every earlier node: same object iff same structural term (value bits incl. sign of zero, type, like).",
-            "Like-expressions are symbols; named constants under the documented spelling normalisation. Histories beyond the term bound are not covered.", "DESIGN.md §2 C07"),
+            "Level-synchronous breadth-first search over sequences of symbol/constant/operation constructions (two families enumerated completely up to 4-5 distinct terms; a third family enumerates every ordered pair of symbol/constant specs -- like-less literals, types given as strings or NumPy classes, likes that are negative/absolute of real and complex symbols -- on three Context parameter sets, alone and after a perturbing request), canonical states = set of structural terms + first-registered member of every ==-equal constant class (the only order-sensitive behaviour), so both orders of every colliding pair are visited; after every event the new node is compared with every earlier node: same object iff same structural term (value bits incl. sign of zero, type, like).",
+            "In the BFS families like-expressions are symbols (family F3 models the documented like normalisation); named constants under the documented spelling normalisation. Histories beyond the term bound are not covered.", "DESIGN.md §2 C07"),
     "C08": ("exploration", "complete kind-pair program lattice x all 25 dtype assignments, emitted NumPy code executed with debug=1",
-            "Every kind the NumPy target declares (size 1), every constant class in every operand position, select/logical plumbing and the full outer x inner x position lattice are traced under every assignment of float16/32/64/complex64/128 to the symbols, emitted with debug=1 and executed on special and generic values in both orders; an emitted dtype assertion that fires, or a result dtype different from the declared one, is a violation. Shipped NumPy requests likewise.",
+            "Every kind the NumPy target declares (size 1), every constant class in every operand position, select/logical plumbing and the full outer x inner x position lattice are traced under every assignment of float16/32/64/complex64/128 to the symbols, emitted with debug=1 (once as written and once with a reference forced on every node, constants included, so that inline nodes are asserted too) and executed on special and generic values in both orders; an emitted dtype assertion that fires, or a result dtype different from the declared one, is a violation. Shipped NumPy requests likewise.",
             "Graphs the printer refuses or NumPy cannot execute are outside the claim. Programs deeper than the lattice are not covered.", "DESIGN.md §2 C08"),
     "C09": ("model_checking", "explicit-state exploration of request histories: all ordered pairs (and triples on a subset) from a pristine forked zygote, Eulerian-circuit walks, hash-seed sweep, against a pristine per-request table",
-            "The text of every (target, function, signature) request generated alone in a pristine process is the reference; every ordered pair of requests (quick: over a 60-request subset covering every (target, function); thorough: all 172^2) is run in its own child forked from an import-only zygote, long walks cover an Eulerian circuit of the complete request digraph, and the whole catalogue is regenerated under several PYTHONHASHSEED values in both orders. Every history is executed on the real generator.",
+            "The text of every (target, function, signature) request generated alone in a pristine process is the reference; every ordered pair of requests (quick: over a 60-request subset covering every (target, function); thorough: all 172^2) is run in its own child forked from an import-only zygote, long walks cover an Eulerian circuit of the complete request digraph, and the whole catalogue is regenerated under several PYTHONHASHSEED values in both orders. The catalogue also holds the lax table, the six tools/generate_apmath_lax.py entries and four synthetic definitions x six targets (all ordered pairs among them); a further family runs all sequences of 2..3 (4) same-signature definitions on ONE Context and compares the last text with its fresh-Context text up to renaming of generated names. Every history is executed on the real generator.",
             "Depth-2 complete, depth 3 on a subset, one circuit of long walks, a finite seed set. Requests raising NotImplementedError count as deterministic text.", "DESIGN.md §2 C09"),
     "C10": ("exploration", "exhaustive enumeration of all float16 operand pairs (thorough) / all pairs of a 4096-value sub-alphabet (quick) per variant, exact comparison in a wider exact arithmetic",
-            "All 4.03e9 ordered float16 pairs per 2Sum/Fast2Sum/Dekker variant (fpa, apmath, utils and the copies inlined in algorithms.py) and all finite float16 through every splitter are checked for s=RN(x+y), s+t=x+y, h=RN(xy), h+l=xy, xh+xl=x and half widths, in float64 where sums/products of float16/32 operands are exact; float32/64 on a delta-exponent product lattice.",
+            "All 4.03e9 ordered float16 pairs per 2Sum/Fast2Sum/Dekker variant (fpa, apmath, utils and the copies inlined in algorithms.py) and all finite float16 through every splitter are checked for s=RN(x+y), s+t=x+y, h=RN(xy), h+l=xy, xh+xl=x and half widths, in float64 where sums/products of float16/32 operands are exact; float32/64 on a delta-exponent product lattice. Twelve fpa/apmath variants are also run through the traced+emitted NumPy function and on NumPy scalars (bit-compared with the array route), and on one NumpyContext shared by all dtype sequences (compared with fresh contexts).",
             "Trusts float64 exactness of float16/float32 sums and products within the stated exponent spans (asserted), NumPy casts as RN-even. float32/float64 are covered on the structured lattice only.", "DESIGN.md §2 C10"),
     "C11": ("exploration", "complete Cartesian products S^3 / S^4 of boundary alphabets plus directed cancellation sets, every algorithm variant, exact correctly rounded reference",
-            "next/is_power_of_two on every float16 of the documented domain; add_3sum, mul_add, 20 fma variants on S^3 and z within +-4 ULP of RN(-xy); add_4sum, dot2 on S^4; evaluated both through the traced+emitted NumPy implementation and eagerly through NumpyContext; reference = exact sum/product rounded once (float64 TwoSum + midpoint fix-up, self-checked against Fraction each run).",
+            "next/is_power_of_two on every float16 of the documented domain; add_3sum, mul_add, 20 fma variants on S^3 and z within +-4 ULP of RN(-xy); add_4sum, dot2 on S^4; evaluated both through the traced+emitted NumPy implementation and eagerly through NumpyContext; reference = exact sum/product rounded once (float64 TwoSum + midpoint fix-up, self-checked against Fraction each run); all dtype sequences on one shared NumpyContext compared with fresh contexts.",
             "Trusts IEEE float64 arithmetic and Python Fractions. Alphabets, not all floats, for the n-ary operations.", "DESIGN.md §2 C11"),
     "C12": ("exploration", "all lists of length <= 4 (5) over a combinatorial float16 alphabet x {functional via NumpyContext, functional traced+emitted, eager} x {fast, safe} x size limits; exact sums",
-            "Exact-sum preservation, normal form after two passes, truncation semantics, and exactness / 1-ulp bounds of add, subtract, multiply, square on all pairs of valid expansions, with an independent overlap predicate (also compared with utils.overlapping).",
+            "Exact-sum preservation, normal form after two passes, truncation semantics, and exactness / 1-ulp bounds of add, subtract, multiply, square on all pairs of valid expansions and on arbitrary (overlapping, unordered, zero-containing) lists, with an independent overlap predicate (also compared with utils.overlapping).",
             "Trusts float64 exactness for sums of <= 6 float16 values, Fractions otherwise. fast=True is judged only on inputs whose non-zero items already form a decreasing non-overlapping sequence (its documented domain).", "DESIGN.md §2 C12"),
     "C13": ("exploration", "exhaustive enumeration of all 65536 float16 bit patterns and all-binade lattices for float32/64 through every conversion pair, exact integer decoding as reference",
-            "Every float16 pattern (all NaN payloads) is sent through float2fraction/fraction2float, float2bin/bin2float, float2mpf/mpf2float, mpf2expansion/expansion2mpf and mpf2multiword/multiword2mpf (option grid); the intermediate object's exact value is compared with an integer decoding of the bit pattern and the round trip must be bit-identical.",
+            "Every float16 pattern (all NaN payloads) is sent through float2fraction/fraction2float, float2bin/bin2float, float2mpf/mpf2float (mpmath contexts of precision p//2, p-1, p, p+1, 2p, 20p), mpf2expansion/expansion2mpf and mpf2multiword/multiword2mpf (option grid); the intermediate object's exact value is compared with an integer decoding of the bit pattern and the round trip must be bit-identical.",
             "Trusts Python integers/Fractions and the meaning of an mpf tuple. float32/float64 are covered on the binade x 64-mantissa lattice.", "DESIGN.md §2 C13"),
     "C14": ("exploration", "all adjacent float16 pairs and k-chains, complete pair/triple products of alphabets, both flush modes, against an ordinal model",
             "diff_ulp is compared with the integer lattice distance for every finite float16 and its k<=64 neighbours, for all ordered pairs of a 2048-value alphabet (symmetry, zero-iff-equal, additivity on monotone triples), under a flush-ordinal model, for complex pairs, and ulp() against its nextafter identities for every finite float16.",
@@ -65,10 +65,10 @@ CHECKS = {
         "DESIGN.md §2 C16",
     ),
     "C17": ("exploration", "exhaustive enumeration of every in-domain float16, complete ULP neighbourhoods of k*ln2 / k*pi/2 and continued-fraction hard cases for float32/64, multiprecision reconstruction",
-            "Every finite float16 of the stated domains, and for float32/64 the binade lattice, the complete neighbourhoods of every k*ln2 and of k*pi/2 (k<256/1024) and the per-binade mantissas closest to multiples of pi/2 and ln2 are reduced by the real code; k, |r| and the reconstruction error are judged against ln2/pi carried as Fractions at >10x precision.",
+            "Every finite float16 of the stated domains, and for float32/64 the binade lattice, the complete neighbourhoods of every k*ln2 and of k*pi/2 (k<256/1024) and the per-binade mantissas closest to multiples of pi/2 and ln2 are reduced by the real code (NumPy scalars; 0-d arrays = the type-generic path and the traced+emitted function are bit-compared with that route; dtype sequences on one shared NumpyContext are compared with fresh contexts); k, |r| and the reconstruction error are judged against ln2/pi carried as Fractions at >10x precision.",
             "Trusts mpmath's ln2 and pi and Fractions. float32/float64 off the constructed set are not covered.", "DESIGN.md §2 C17"),
     "C18": ("model_checking", "explicit-state BFS over create/enter/exit/raise histories on the real MXCSR register with an integer register + stack reference model, plus generated with/decorator programs",
-            "Breadth-first search over histories (nesting depth <= 3, <= 2-3 context objects, <= 1 exception) from 9-18 initial register states and 12-45 argument combinations; every transition replays the whole history on fresh fpu objects, reads the hardware register through the harness's own stmxcsr stub after every event and compares the control bits with the model; arithmetic probes confirm the body observes the mode; every failing history is replayed twice; complete nestings also run as generated source with real with-statements, try/except and the decorator form.",
+            "Breadth-first search over histories (nesting depth <= 3, <= 2-3 context objects, <= 1 exception) from 9-18 initial register states and 12-45 argument combinations; contexts are created from two register objects; every transition replays the whole history on fresh fpu objects, reads the hardware register through the harness's own stmxcsr stub after every event and compares the control bits with the model; arithmetic probes confirm the body observes the mode; every failing history is replayed twice; complete nestings also run as generated source with real with-statements, try/except and the decorator form.",
             "Single thread; exception masks are never unmasked; sticky status bits are excluded from comparisons.", "DESIGN.md §2 C18"),
     "C19": ("exploration", "complete product of size x bounds x flags x dtype configurations with structural predicates on the returned arrays",
             "real_samples is called on the full product of 22+ sizes (incl. N_repr-1..N_repr+1) x 15^2 (min,max) bound pairs x flag sets x 3 dtypes; ordering, bounds, presence of requested special values, absence of subnormals/NaN, and ULP-uniformity are judged with ordinal arithmetic; the pair/triple/complex generators are compared with Cartesian products of the 1-D calls.",
